@@ -8,7 +8,7 @@ import z3
 from pyvc.spec import *
 from pyvc.sym import SObj, KeyS
 from pyvc import lemmas, sym
-from pyvc.pylib import InstT, PredT, MODEL, LOSS, card, POW, SQRT, proj_r_term, proj_r_axiom
+from pyvc.pylib import InstT, PredT, MODEL, LOSS, card, POW, SQRT, SQF, proj_r_term, proj_r_axiom
 import contracts.trackers as tr
 import contracts.multi_value as mv
 import contracts.storage as st
@@ -102,7 +102,7 @@ cls('Explainer', file=F + 'base.py',
     optional=['_loss_direction', 'marginal_prediction', 'n_inner_samples'],
     ghost={'kind': TInt},
     invariant={
-        'counts': lambda s: land(s.seen_samples >= 0, s.number_of_features == s.feature_names.n),
+        'counts': lambda s: land(s.seen_samples >= 0, s.number_of_features == s.feature_names.n, s.feature_names.n >= 1),
         'alpha_range': lambda s: land(0 < s._smoothing_alpha, s._smoothing_alpha <= 1),
         'names_distinct': lambda s: forall_int(lambda i: forall_int(
             lambda j: implies(land(0 <= i, i < j, j < s.feature_names.n), s.feature_names.arr[i] != s.feature_names.arr[j]))),
@@ -287,6 +287,7 @@ def _init_requires(alpha_optional):
             lambda j: implies(land(0 <= i, i < j, j < c.a.feature_names.n),
                               c.a.feature_names.arr[i] != c.a.feature_names.arr[j]))),
         'n_inner_pos': lambda c: c.a.n_inner_samples >= 1,
+        'names_nonempty': lambda c: c.a.feature_names.n >= 1,
         # a user-supplied imputer evaluates the same (validated) model
         'imputer_model': lambda c: implies(_given(c, 'imputer'), c.a.imputer.model_function == im.VALIDATE(c.a.model_function))
         if _given(c, 'imputer') else True,
@@ -427,8 +428,7 @@ def _pfi_post_variance(c):
     newT = c.new._importance_trackers.tracked_value
 
     def dev(k):
-        d = PFI.val[k] - mv.TV(newT.val[k]).tracked_value
-        return d * d
+        return SQF(PFI.val[k] - mv.TV(newT.val[k]).tracked_value)     # sq(d) = d*d
     return implies(c.old.seen_samples >= 1, land(
         _upd_by(c, '_variance_trackers', VARS.t),
         forall_key(lambda k: VARS.dom[k] == names_set(names)(k), pats=lambda k: [VARS.dom[k]]),
@@ -486,6 +486,7 @@ def _reveal_updates(c):
 
 
 fn('IncrementalPFI.explain_one', F + 'pfi.py', self_cls='Explainer', params=_explain_params,
+   cuts={'MultiValueTracker.update': lambda run, a, recv: _cut_squares_nonneg(run, a, recv)},
    requires=dict(_explain_requires(), kind=lambda c: c.old.kind == 0),
    entry_lemmas=lambda c: _explain_lemmas_entry(c) + tr.reveal_upd_parts(['lo0', 'family', 'inv']),
    ret=NumDict, local_types={'pfi': NumDict},
@@ -543,3 +544,317 @@ fn('IncrementalPFI.explain_one', F + 'pfi.py', self_cls='Explainer', params=_exp
 def pack_key(v):
     from pyvc.sym import pack
     return pack(v)
+
+
+# =====================================================================================================================
+# IncrementalSage: getters and explain_one   (C01, C03, C15, C16, C17)
+# =====================================================================================================================
+fn('Explainer.marginal_loss', F + 'sage/incremental.py', src_cls='IncrementalSage', kind='property', self_cls='Explainer',
+   pure=True, ret=TNum, requires={'kind': lambda c: c.old.kind == 1},
+   ensures={'value': lambda c: c.res == c.old._marginal_loss_tracker.tracked_value + c.old._loss_direction})
+fn('Explainer.model_loss', F + 'sage/incremental.py', src_cls='IncrementalSage', kind='property', self_cls='Explainer',
+   pure=True, ret=TNum, requires={'kind': lambda c: c.old.kind == 1},
+   ensures={'value': lambda c: c.res == c.old._model_loss_tracker.tracked_value + c.old._loss_direction})
+fn('Explainer.explained_loss', F + 'sage/incremental.py', src_cls='IncrementalSage', kind='property', self_cls='Explainer',
+   pure=True, ret=TNum, requires={'kind': lambda c: c.old.kind == 1},
+   ensures={
+       # the direction offset is added to both terms and cancels
+       'value': lambda c: c.res == c.old._marginal_loss_tracker.tracked_value - c.old._model_loss_tracker.tracked_value,
+       # C01 at the level of the public API: the importance values sum to the explained loss
+       'efficiency': lambda c: imp_sum(c.old) == c.res,
+   })
+
+MEANOUT = lambda preds_term: pure_call('_get_mean_model_output', None, preds_term).t
+NumList = TList(TNum)
+
+
+def _perm_before(perm, i):
+    return lambda k: exists_int(lambda j: land(0 <= j, j < i, perm.arr[j] == k))
+
+
+def _sage_chain(c):
+    """C03: with PERM the drawn order, PRD[f] the imputer result for the step that reveals f, LS the chain of losses:
+    LS[0] = L(y, normalised running-mean prediction), LS[j+1] = L(y, mean(PRD[PERM[j]])), credit[PERM[j]] = LS[j] - LS[j+1]"""
+    PERM, PRD, MC, LS = c.gout.PERM, c.gout.PRD, c.gout.MC, c.gout.LS
+    names = c.old.feature_names
+    lossf, y = c.old._loss_function, c.a.y_i
+    n = names.n
+    return implies(c.old.seen_samples >= 1, land(
+        PERM.n == n, LS.n == n + 1,
+        LS.arr[0] == LOSS(lossf, y, c.new.marginal_prediction.t),
+        forall_int(lambda j: implies(land(0 <= j, j < n), land(
+            PRD.dom[PERM.arr[j]],
+            LS.arr[j + 1] == LOSS(lossf, y, MEANOUT(PRD.val[PERM.arr[j]])),
+            MC.dom[PERM.arr[j]],
+            MC.val[PERM.arr[j]] == LS.arr[j] - LS.arr[j + 1]))),
+        # the last coalition is the full feature set: the chain ends at the model loss
+        LS.arr[n] == LOSS(lossf, y, MODEL(c.old._model_function, c.a.x_i.t))))
+
+
+def _sage_trackers(c):
+    o, n = c.old, c.new
+    lossf, y = o._loss_function, c.a.y_i
+    pred = MODEL(o._model_function, c.a.x_i.t)
+    return implies(o.seen_samples >= 1, land(
+        tr.UPD(o._model_loss_tracker.term, LOSS(lossf, y, pred), n._model_loss_tracker.term),
+        _upd_by(c, '_marginal_prediction_tracker', pred),
+        n.marginal_prediction.t == pure_call('MultiValueTracker.get_normalized', n._marginal_prediction_tracker).t,
+        tr.UPD(o._marginal_loss_tracker.term, LOSS(lossf, y, n.marginal_prediction.t), n._marginal_loss_tracker.term)))
+
+
+def _sage_importance(c):
+    MC = c.gout.MC
+    names = c.old.feature_names
+    return implies(c.old.seen_samples >= 1, land(
+        _upd_by(c, '_importance_trackers', MC.t),
+        forall_key(lambda k: MC.dom[k] == names_set(names)(k), pats=lambda k: [MC.dom[k]])))
+
+
+def _sage_variance(c):
+    MC, VARS = c.gout.MC, c.gout.VARS
+    names = c.old.feature_names
+    newT = c.new._importance_trackers.tracked_value
+
+    def dev(k):
+        return SQF(MC.val[k] - mv.TV(newT.val[k]).tracked_value)      # sq(d) = d*d
+    return implies(c.old.seen_samples >= 1, land(
+        _upd_by(c, '_variance_trackers', VARS.t),
+        forall_key(lambda k: VARS.dom[k] == names_set(names)(k), pats=lambda k: [VARS.dom[k]]),
+        forall_int(lambda i: implies(land(0 <= i, i < names.n), VARS.val[names.arr[i]] == dev(names.arr[i])))))
+
+
+def _eff_lemmas(c):
+    """msum lemma instances for the induction step of the efficiency invariant (Lean: msum_linear)"""
+    o, n = c.old, c.new
+    MC = c.gout.MC
+    oT, nT = o._importance_trackers.tracked_value, n._importance_trackers.tracked_value
+    g = tr._gain(o._model_loss_tracker)
+    out = [proj_tv_axiom(oT.val), proj_tv_axiom(nT.val)]
+    # already explained before: imp' = (1-g) imp + g mc on the feature names
+    out += lemmas.msum_linear(NumDict, nT.dom, PROJ_TV(nT.val), PROJ_TV(oT.val), MC.val, 1 - g, g)
+    # first explanation: imp' = g mc (+ 0 mc)
+    out += lemmas.msum_linear(NumDict, nT.dom, PROJ_TV(nT.val), MC.val, MC.val, g, z3.RealVal(0))
+    return out
+
+
+def _perm_used(c, e):
+    """the drawn permutation is over all feature names (names themselves, or their indices) and the chain follows it"""
+    names = c.old.feature_names
+    PERM = c.gout.PERM
+    if e['value'].sort() == KeyList.sort():
+        return land(e['arg'] == names.t, e['value'] == PERM.t)
+    idx = TList(TInt)
+    return land(e['arg'] == names.n, PERM.n == names.n, forall_int(
+        lambda j: implies(land(0 <= j, j < names.n), PERM.arr[j] == names.arr[idx.arr(e['value'])[j]])))
+
+
+def _subset_is_complement(l):
+    ev = _impute_calls(l.body_events)
+    if len(ev) != 1:
+        return False
+    sub = ev[0]['args']['feature_subset']
+    names = l.self.feature_names
+    perm = l.v.permutation_chain
+    return land(
+        # the imputer receives exactly the features NOT yet revealed (the complement of the coalition)
+        forall_key(lambda k: sub.dom[k] == land(names_set(names)(k), lnot(_perm_before(perm, l.i + 1)(k))),
+                   pats=lambda k: [sub.dom[k]]),
+        ev[0]['args']['x_i'].t == l.a.x_i.t, ev[0]['args']['n_samples'].t == l.v.n_inner_samples)
+
+
+def _cut_last_subset_empty(run, a, recv):
+    """intermediate assertion before each imputer call: in the last step of the chain nothing is left to impute"""
+    l = run.cur_loop
+    return implies(l.i + 1 == l.n, im.subset_empty(a.feature_subset))
+
+
+def _cut_squares_nonneg(run, a, recv):
+    """intermediate assertion before the variance trackers are stepped: they are fed squares"""
+    if recv is not run.self_obj.getfield('_variance_trackers'):
+        return True
+    return forall_key(lambda k: implies(a.values.dom[k], a.values.val[k] >= 0), pats=lambda k: [a.values.val[k]])
+
+
+def _eff_steps():
+    """proof steps for the induction step of the efficiency invariant (each proved, then assumed)"""
+    def parts(c):
+        o, n = c.old, c.new
+        oT, nT = o._importance_trackers.tracked_value, n._importance_trackers.tracked_value
+        g = tr._gain(o._model_loss_tracker)
+        return o, n, oT, nT, g, c.gout.MC
+
+    def explained(c):
+        return c.old.seen_samples >= 1
+
+    def dom_names(c):
+        o, n, oT, nT, g, MC = parts(c)
+        return implies(explained(c), land(nT.dom == MC.dom, lor(oT.dom == nT.dom, forall_key(lambda k: lnot(oT.dom[k])))))
+
+    def gains(c):
+        o, n, oT, nT, g, MC = parts(c)
+        return implies(explained(c), forall_key(lambda k: implies(nT.dom[k], land(
+            implies(oT.dom[k], tr._gain(mv.TV(oT.val[k])) == g),
+            implies(lnot(oT.dom[k]), tr._gain(o._importance_trackers._base_tracker) == g))), pats=lambda k: [nT.val[k]]))
+
+    def lem_a(c):
+        o, n, oT, nT, g, MC = parts(c)
+        return lemmas.msum_linear(NumDict, nT.dom, PROJ_TV(nT.val), PROJ_TV(oT.val), MC.val, 1 - g, g)[0]
+
+    def lem_b(c):
+        o, n, oT, nT, g, MC = parts(c)
+        return lemmas.msum_linear(NumDict, nT.dom, PROJ_TV(nT.val), MC.val, MC.val, g, z3.RealVal(0))[0]
+
+    def case_a(c):
+        o, n, oT, nT, g, MC = parts(c)
+        return land(explained(c), oT.dom == nT.dom)
+
+    def case_b(c):
+        o, n, oT, nT, g, MC = parts(c)
+        return land(explained(c), forall_key(lambda k: lnot(oT.dom[k])))
+
+    def proj_k(c):
+        o, n, oT, nT, g, MC = parts(c)
+        return forall_key(lambda k: land(PROJ_TV(nT.val)[k] == mv.TV(nT.val[k]).tracked_value,
+                                         PROJ_TV(oT.val)[k] == mv.TV(oT.val[k]).tracked_value),
+                          pats=lambda k: [PROJ_TV(nT.val)[k]])
+
+    def lin_a(c):
+        o, n, oT, nT, g, MC = parts(c)
+        return implies(case_a(c), forall_key(lambda k: implies(nT.dom[k], mv.TV(nT.val[k]).tracked_value ==
+                                                               mv.TV(oT.val[k]).tracked_value +
+                                                               g * (MC.val[k] - mv.TV(oT.val[k]).tracked_value)),
+                                             pats=lambda k: [nT.val[k]]))
+
+    def lin_b(c):
+        o, n, oT, nT, g, MC = parts(c)
+        return implies(case_b(c), forall_key(lambda k: implies(nT.dom[k], mv.TV(nT.val[k]).tracked_value == g * MC.val[k]),
+                                             pats=lambda k: [nT.val[k]]))
+
+    # the antecedents of the two msum_linear instances, literally (so that the lemma fires by modus ponens)
+    def pointwise_a(c):
+        return implies(case_a(c), lem_a(c).arg(0))
+
+    def pointwise_b(c):
+        return implies(case_b(c), lem_b(c).arg(0))
+
+    def sums(c):
+        return land(implies(case_a(c), lem_a(c).arg(1)), implies(case_b(c), lem_b(c).arg(1)))
+
+    def chain_total(c):
+        o, n, oT, nT, g, MC = parts(c)
+        lossf, y = o._loss_function, c.a.y_i
+        return implies(explained(c), lemmas.msum_dv(NumDict, MC.dom, MC.val) ==
+                       LOSS(lossf, y, n.marginal_prediction.t) - LOSS(lossf, y, MODEL(o._model_function, c.a.x_i.t)))
+
+    def loss_steps(c):
+        o, n, oT, nT, g, MC = parts(c)
+        lossf, y = o._loss_function, c.a.y_i
+        return implies(explained(c), land(
+            n._marginal_loss_tracker.tracked_value == o._marginal_loss_tracker.tracked_value +
+            g * (LOSS(lossf, y, n.marginal_prediction.t) - o._marginal_loss_tracker.tracked_value),
+            n._model_loss_tracker.tracked_value == o._model_loss_tracker.tracked_value +
+            g * (LOSS(lossf, y, MODEL(o._model_function, c.a.x_i.t)) - o._model_loss_tracker.tracked_value)))
+
+    def first_name(c):
+        names = c.old.feature_names
+        return names_set(names)(names.arr[0])
+
+    def old_eff(c):
+        o, n, oT, nT, g, MC = parts(c)
+        return implies(first_name(c), land(imp_sum(o) == o._marginal_loss_tracker.tracked_value - o._model_loss_tracker.tracked_value,
+                    implies(forall_key(lambda k: lnot(oT.dom[k])),
+                            land(o._marginal_loss_tracker.tracked_value == 0, o._model_loss_tracker.tracked_value == 0))))
+    def eff_final(c):
+        return CLASSES['Explainer'].invariant['Eff'](c.new)
+
+    def kind_sage(c):
+        return land(c.new.kind == 1, c.old.kind == 1, first_name(c),
+                    lor(c.old.seen_samples >= 1, land(c.old.seen_samples == 0, _estimates_unchanged(c))))
+    return _EFF_STEPS(locals())
+
+
+def _EFF_STEPS(f):
+    return [('first_name', f['first_name']), ('dom_names', f['dom_names']), ('gains', f['gains']), ('proj_k', f['proj_k']), ('lin_a', f['lin_a']), ('lin_b', f['lin_b']),
+            ('pointwise_a', f['pointwise_a'], ['proj_k', 'lin_a']), ('pointwise_b', f['pointwise_b'], ['proj_k', 'lin_b']),
+            ('sums', f['sums']), ('chain_total', f['chain_total']), ('loss_steps', f['loss_steps']), ('old_eff', f['old_eff']),
+            ('kind_sage', f['kind_sage']),
+            ('eff_final', f['eff_final'], ['dom_names', 'sums', 'chain_total', 'loss_steps', 'old_eff', 'kind_sage'])]
+
+
+fn('IncrementalSage.explain_one', F + 'sage/incremental.py', self_cls='Explainer', params=_explain_params,
+   cuts={'Imputer.impute': _cut_last_subset_empty, 'MultiValueTracker.update': _cut_squares_nonneg},
+   exit_cuts=_eff_steps(),
+   requires=dict(_explain_requires(), kind=lambda c: c.old.kind == 1),
+   entry_lemmas=lambda c: tr.reveal_upd_parts(['lo0', 'family', 'inv', 'count', 'lin']),
+   lemmas=lambda c: _eff_lemmas(c),
+   ret=NumDict, local_types={'marginal_contributions': NumDict},
+   modifies=['_importance_trackers', '_variance_trackers', 'seen_samples', '_storage', '_marginal_loss_tracker',
+             '_model_loss_tracker', '_marginal_prediction_tracker', 'marginal_prediction'],
+   raises={'CallbackError': {'post': {'estimates_untouched': _estimates_unchanged}}},
+   ghost_out={'PERM': (KeyList, lambda c: _local(c, 'permutation_chain', KeyList) if c.run.last_loop is not None else KeyList.empty()),
+              'PRD': (PredListDict, lambda c: c.run.last_loop.g.PRD.t if c.run.last_loop is not None else PredListDict.empty()),
+              'LS': (NumList, lambda c: c.run.last_loop.g.LS.t if c.run.last_loop is not None else NumList.empty()),
+              'MC': (NumDict, lambda c: _local(c, 'marginal_contributions', NumDict)),
+              'VARS': (NumDict, lambda c: _local(c, 'variances', NumDict))},
+   counts={'storage_update': lambda c: ite(c.a.update_storage, 1, 0)},
+   body_ensures={
+       # C04/D1: exactly one permutation per explained observation, over the complete feature-name list, used in order
+       'one_full_permutation': lambda c: implies(c.old.seen_samples >= 1, land(
+           c.added('np.random.permutation') == 1, *[_perm_used(c, e) for e in c.events if e.get('prim') == 'np.random.permutation'])),
+   },
+   ensures={
+       'chain': _sage_chain, 'trackers': _sage_trackers, 'importance_step': _sage_importance, 'variance_step': _sage_variance,
+       'first_only_seeds': lambda c: implies(c.old.seen_samples == 0, land(_estimates_unchanged(c), c.added('model') == 0,
+                                                                           c.added('loss') == 0, c.added('impute') == 0)),
+       'seen': lambda c: c.new.seen_samples == c.old.seen_samples + 1,
+       'budget': lambda c: implies(c.old._imputer.kind == 1, c.added('model') == ite(
+           c.old.seen_samples == 0, 0, 1 + c.old.feature_names.n * _n_eff(c))),
+       'impute_calls': lambda c: c.added('impute') == ite(c.old.seen_samples == 0, 0, c.old.feature_names.n),
+       'storage_last': _storage_last,
+       'result_is_property': lambda c: c.res.t == pure_call('Explainer.importance_values', c.new).t,
+       'args_unchanged': lambda c: land(c.a_new.x_i.t == c.a.x_i.t, c.a_new.y_i == c.a.y_i),
+   },
+   loops=[loop(
+       counters=['impute', 'model', 'loss'],
+       ghosts={
+           'PRD': (PredListDict, lambda l: PredListDict.empty(),
+                   lambda l: PredListDict.mk(z3.Store(l.g.PRD.dom, pack_key(l.elem), True),
+                                             z3.Store(l.g.PRD.val, pack_key(l.elem), _impute_calls(l.body_events)[-1]['res'].t))),
+           'LS': (NumList, lambda l: NumList.mk(z3.IntVal(1), z3.Store(NumList.arr(NumList.empty()), 0, l.v.sample_loss)),
+                  lambda l: NumList.mk(l.g.LS.n + 1, z3.Store(l.g.LS.arr, l.g.LS.n, l.v.sample_loss))),
+       },
+       inv={
+           # the chain is a rearrangement of the feature names: every name occurs, none twice
+           'perm_onto': lambda l: land(l.v.permutation_chain.n == l.self.feature_names.n, forall_key(
+               lambda k: implies(names_set(l.self.feature_names)(k), exists_int(
+                   lambda j: land(0 <= j, j < l.v.permutation_chain.n, l.v.permutation_chain.arr[j] == k))))),
+           'perm_distinct': lambda l: forall_int(lambda a: forall_int(
+               lambda b: implies(land(0 <= a, a < b, b < l.v.permutation_chain.n),
+                                 l.v.permutation_chain.arr[a] != l.v.permutation_chain.arr[b]))),
+           'perm_names': lambda l: forall_int(lambda j: implies(land(0 <= j, j < l.v.permutation_chain.n),
+                                                                names_set(l.self.feature_names)(l.v.permutation_chain.arr[j]))),
+           'remaining': lambda l: forall_key(
+               lambda k: l.v.features_not_in_s.dom[k] == land(names_set(l.self.feature_names)(k),
+                                                              lnot(_perm_before(l.v.permutation_chain, l.i)(k))),
+               pats=lambda k: [l.v.features_not_in_s.dom[k]]),
+           'contrib_dom': lambda l: forall_key(
+               lambda k: l.v.marginal_contributions.dom[k] == _perm_before(l.v.permutation_chain, l.i)(k),
+               pats=lambda k: [l.v.marginal_contributions.dom[k]]),
+           # telescoping: the credits so far add up to (loss fed to the marginal-loss tracker) - (current loss)
+           'telescoping': lambda l: lemmas.msum_dv(NumDict, l.v.marginal_contributions.dom, l.v.marginal_contributions.val)
+           == l.entry.sample_loss - l.v.sample_loss,
+           'chain': lambda l: land(
+               l.g.LS.n == l.i + 1, l.g.LS.arr[0] == l.entry.sample_loss, l.g.LS.arr[l.i] == l.v.sample_loss,
+               forall_int(lambda j: implies(land(0 <= j, j < l.i), land(
+                   l.g.PRD.dom[l.v.permutation_chain.arr[j]],
+                   l.g.LS.arr[j + 1] == LOSS(l.self._loss_function, l.a.y_i, MEANOUT(l.g.PRD.val[l.v.permutation_chain.arr[j]])),
+                   l.v.marginal_contributions.val[l.v.permutation_chain.arr[j]] == l.g.LS.arr[j] - l.g.LS.arr[j + 1])))),
+           # after the last feature nothing is imputed: the chain has reached the model's own loss
+           'tail': lambda l: implies(land(l.i >= 1, l.i == l.n), l.v.sample_loss ==
+                                     LOSS(l.self._loss_function, l.a.y_i, MODEL(l.self._model_function, l.a.x_i.t))),
+           'calls': lambda l: land(l.cnt('impute') == l.entry_cnt('impute') + l.i,
+                                   implies(l.self._imputer.kind == 1, l.cnt('model') == l.entry_cnt('model') + l.i * l.v.n_inner_samples)),
+           'frame': lambda l: land(l.v.x_i.t == l.a.x_i.t, l.v.n_inner_samples == l.entry.n_inner_samples,
+                                   l.v.permutation_chain.t == l.entry.permutation_chain.t),
+       },
+       body={'complement_subset': _subset_is_complement})])
